@@ -14,7 +14,7 @@ from engine import op_place, AnchorLost
 from pathsens import ps_reach
 from terms import TermBuilder, render, strip_proj
 from common import (ok_assign_blocks, err_assign_blocks, residual_return_blocks, question_mark_source,
-                    reach_from, switch_info, users_switches, fmt_key)
+                    reach_from, switch_info, users_switches, fmt_key, arms_of)
 
 HDR = "buf[ser(self.metadata.header)]"
 ORACLE = {
@@ -102,6 +102,7 @@ def run(f, fixture, rep, cfg, tier):
         by_tag.setdefault(c["tag"], []).append(c)
 
     mismatch_blocks = set()
+    mismatch_edges = []
     for tag, (getter, want) in ORACLE.items():
         cs = by_tag.get(tag, [])
         if not rep.check(len(cs) == 1, "R1", "%s|one-comparison" % tag, "exactly one comparison binds %s" % tag,
@@ -133,6 +134,7 @@ def run(f, fixture, rep, cfg, tier):
                   "mismatch of %s returns Err(DigestMismatchError)" % tag,
                   "on mismatch of %s the function %s" % (tag, "can still reach Ok(())" if from_mis & ok_set else "returns %s" % sorted(map(str, errs_on_mis))), call.loc())
         mismatch_blocks |= {bb for (bb, v) in err_assign_blocks(b) if bb in from_mis}
+        mismatch_edges.append((sws[0], mismatch_t))
         rep.check(bool(reach_from(b, equal_t) & ok_set), "R1", "%s|equal-edge" % tag, "a matching %s lets verification continue to Ok(())" % tag,
                   "a matching %s can never reach Ok(()): success is withheld" % tag, call.loc())
         # must-pass-through: with the tag present, Ok(()) only via the equal edge
@@ -196,7 +198,24 @@ def run(f, fixture, rep, cfg, tier):
     # ---- R4 closed set of error exits ------------------------------------------------------
     for (bb, var) in err_assign_blocks(b):
         if var == "DigestMismatchError":
-            rep.check(bb in mismatch_blocks or True, "R4", "err|DigestMismatchError|bb", "DigestMismatchError exit", "", b.span)
+            # "mismatch" is the verdict of a comparison that failed - nothing else (an absent tag, a policy decision) may report it:
+            # with the mismatch edges of the binding comparisons cut, no DigestMismatchError exit is reachable
+            if len(mismatch_edges) == len(ORACLE):
+                # an empty recorded digest list cannot match either: the `None` edge of `first()` / `get(0)` on the payload digest
+                # array counts as a failed comparison (the pinned tree reports it with `.first().ok_or(DigestMismatchError)?`)
+                empty_edges = set()
+                for sb_ in sorted(b.reachable()):
+                    i_ = switch_info(b, sb_)
+                    if i_ and i_["kind"] == "discr" and (i_.get("enum") or "").endswith("option::Option") and i_.get("place") is not None:
+                        pt_ = render(tb.term(i_["place"]))
+                        if re.match(r"(core::slice::<impl \[T\]>::(first|get)|std::iter::Iterator::next)\(", pt_) and "RPMTAG_PAYLOADDIGEST" in pt_ and "RPMTAG_PAYLOADDIGESTALGO" not in pt_:
+                            a_ = arms_of(b, i_)
+                            if "None" in a_:
+                                empty_edges.add((sb_, a_["None"]))
+                free = reach_from(b, 0, blocked_edges=set(mismatch_edges) | empty_edges)
+                rep.check(bb not in free, "R4", "err|DigestMismatchError|only-on-mismatch", "DigestMismatchError is returned only behind a failed digest comparison",
+                          "verify_digests returns DigestMismatchError on a path on which no digest comparison failed: a package whose recorded digests all match (or that records fewer digests) is reported as corrupt",
+                          "%s:%s" % (b.file, (b.stmts(bb)[-1].get("line") if b.stmts(bb) else b.term(bb).get("line"))))
             continue
         # InvalidTagValueEnumVariant: the recorded algorithm id is not a DigestAlgorithm at all (same verdict as "unsupported")
         rep.check(var in ("UnsupportedDigestAlgorithm", "InvalidTagValueEnumVariant"), "R4", "err|%s" % var, "error exit %s is in the allowed set" % var,
@@ -243,6 +262,11 @@ def run(f, fixture, rep, cfg, tier):
     # a digest is "recorded" when its getter succeeds; a getter that fails on a present entry turns the check off
     rep.rule("R8", "the typed getters accept every well-formed entry of their type (C05.R3)")
     rep.include("c05", f, fixture, cfg, tier, "R8", "header getters (their failure silently skips a digest check)", only_rules={"R3"}, floor=10)
+
+    # ---- R9 the digest step of signature verification -------------------------------------------------------------------
+    # verify_signature is the other public way to ask "are the digests right": each of its success exits passes verify_digests
+    rep.rule("R9", "every success of verify_signature passed verify_digests (C02.R3)")
+    rep.include("c02", f, fixture, cfg, tier, "R9", "digest step of verify_signature", only_rules={"R3"}, floor=0 if cfg == "no-default" else 1)
 
     # ---- R7 the digest tags are rpm's digest tags ------------------------------------------------------------------
     rep.rule("R7", "digest tag numbers equal rpm's (rpmtag.h)")
